@@ -10,12 +10,30 @@ from . import tlc
 
 def main():
     mods = sorted(glob.glob(os.path.join(SPEC, "*.tla")))
+    # modules that EXTEND the Apalache operators are entry points of apalache-mc only (its standard modules are not on
+    # SANY's path); they are type-checked by Apalache below
+    apa = [m for m in mods if m.endswith("_Apa.tla")]
+    mods = [m for m in mods if m not in apa]
     bad = 0
+    for m in apa:
+        import shutil
+        import subprocess
+        from .common import scratch
+        d = scratch("apasetup")
+        try:
+            p = subprocess.run(["apalache-mc", "typecheck", "--out-dir=" + d, os.path.basename(m)], cwd=SPEC, capture_output=True,
+                               text=True, timeout=600)
+            if p.returncode != 0:
+                bad += 1
+                print("APALACHE TYPECHECK FAILED", m)
+                print((p.stdout + p.stderr)[-1500:])
+        finally:
+            shutil.rmtree(d, ignore_errors=True)
     with ThreadPoolExecutor(8) as ex:
         for path, (ok, out) in zip(mods, ex.map(tlc.sany, mods)):
             if not ok:
                 bad += 1
                 print("SANY FAILED", path)
                 print(out[-1500:])
-    print("setup: %d TLA+ modules parsed, %d failed" % (len(mods), bad))
+    print("setup: %d TLA+ modules parsed (%d by Apalache), %d failed" % (len(mods) + len(apa), len(apa), bad))
     return 0 if bad == 0 else 2
